@@ -25,6 +25,9 @@ def alphabet(tier):
             ops.append(("sim", k, a, b, ()))  # logs kept, max_time possibly below the current time
     ops.append(("simauto", (0, 2)))  # simulate(absence=[0,2], perform_auto_task_while_absence_time=True)
     ops.append(("simauto", (1,)))
+    ops.append(("insert", (1,)))  # insert_absence_time_list([1]) - names a step that is already registered when the run had absence [1]
+    ops.append(("insert", (0, 2, 2)))
+    ops.append(("remove",))
     ops.append(("init",))
     ops.append(("reverse",))
     ops.append(("simu", 2))  # simulate(unit_time=2): an option of simulate() like any other
@@ -142,6 +145,10 @@ def apply_op(m, op, bad):
         elif kind == "simu":
             holder["aligned_before"] = False  # the index-equals-step comparison is meaningless here; the alignment invariant after the call decides
             p.simulate(max_time=BIG, unit_time=op[1], absence_time_list=[])
+        elif kind == "insert":
+            p.insert_absence_time_list(list(op[1]))
+        elif kind == "remove":
+            p.remove_absence_time_list()
         elif kind == "init":
             p.initialize()
         elif kind == "reverse":
@@ -219,6 +226,8 @@ def work(chunk):
     col = engines.Collector()
     for spec, depth, ops, first in chunk:
         aliased = any(w.get("share_logs_with") for tm in spec.get("teams", []) for w in tm.get("workers", []))
+        if first[0][0] in ("insert", "remove"):
+            continue  # absence edits are applied to results (C18 explores them on their own); here they follow a run
         if aliased and not (first[0][0] in ("sim", "simauto", "back", "simu", "init") and (first[0][0] != "sim" or first[0][3])):
             # two workers that share their log list objects are un-shared by the first log-initialising call; a history that
             # never initialises the logs keeps writing both workers into one list - that is the model's aliasing, not a defect
